@@ -361,6 +361,44 @@ func GenRuleSoup(t *rapid.T) string {
 			return ruleObj(depth)
 		}
 	}
+	// shaped: most of the time a rule gets a value of the shape it expects
+	shaped := func(name string) string {
+		if rapid.IntRange(0, 3).Draw(t, "anyShape") == 0 {
+			return ruleVal(0)
+		}
+		tn := func() string { return fmt.Sprintf("%q", rapid.SampledFrom(typeNames).Draw(t, "typeName")) }
+		switch name {
+		case "type", "serializedType":
+			return tn()
+		case "or":
+			n := rapid.IntRange(1, 3).Draw(t, "nAlt")
+			var items []string
+			for i := 0; i < n; i++ {
+				switch rapid.IntRange(0, 3).Draw(t, "altKind") {
+				case 0:
+					items = append(items, tn())
+				case 1:
+					items = append(items, "{type: "+tn()+"}")
+				case 2:
+					items = append(items, rapid.SampledFrom([]string{"{min: 1}", "{minLength: 1}", "{}", "{enum: [1, 2]}", "{regex: \"^a$\"}", "{type: \"integer\", min: 1}"}).Draw(t, "altObj"))
+				default:
+					items = append(items, ruleObj(1))
+				}
+			}
+			return "[" + strings.Join(items, ", ") + "]"
+		case "enum":
+			return rapid.SampledFrom([]string{"@e", "[1, 2]", "[\"a\", \"s\"]", "[]", "@undefined", "[1, \"s\", true, null]"}).Draw(t, "enumVal")
+		case "allOf":
+			return rapid.SampledFrom([]string{"\"@t\"", "[\"@t\"]", "[\"@t\", \"@s\"]", "\"@undefined\"", "[]", "\"@a\""}).Draw(t, "allOfVal")
+		case "optional", "nullable", "additionalProperties", "exclusiveMinimum", "exclusiveMaximum":
+			return rapid.SampledFrom([]string{"true", "false", "\"any\"", "\"@t\""}).Draw(t, "boolVal")
+		case "regex":
+			return rapid.SampledFrom([]string{"\"^a+$\"", "\"\"", "\"(\"", "\"s\""}).Draw(t, "reVal")
+		case "const":
+			return rapid.SampledFrom([]string{"true", "false"}).Draw(t, "constVal")
+		}
+		return rapid.SampledFrom([]string{"0", "1", "-1", "2.5", "100"}).Draw(t, "numVal")
+	}
 	rules := func() string {
 		n := rapid.IntRange(0, 3).Draw(t, "nRules")
 		if n == 0 {
@@ -368,7 +406,11 @@ func GenRuleSoup(t *rapid.T) string {
 		}
 		var parts []string
 		for i := 0; i < n; i++ {
-			parts = append(parts, rapid.SampledFrom(ruleNames).Draw(t, "rule")+": "+ruleVal(0))
+			name := rapid.SampledFrom(ruleNames).Draw(t, "rule")
+			if rapid.IntRange(0, 2).Draw(t, "favourite") == 0 {
+				name = rapid.SampledFrom([]string{"or", "type", "enum", "allOf", "optional"}).Draw(t, "favRule")
+			}
+			parts = append(parts, name+": "+shaped(name))
 		}
 		return " // {" + strings.Join(parts, ", ") + "}"
 	}
@@ -383,7 +425,11 @@ func GenRuleSoup(t *rapid.T) string {
 		case 1:
 			return ind + "[" + rules() + "\n" + ind + "  " + value() + rules() + "\n" + ind + "]\n"
 		}
-		sb.WriteString(ind + "{" + rules() + "\n")
+		top := ""
+		if rapid.IntRange(0, 2).Draw(t, "topRules") == 0 {
+			top = rules()
+		}
+		sb.WriteString(ind + "{" + top + "\n")
 		n := rapid.IntRange(1, len(keys)).Draw(t, "nProps")
 		for i := 0; i < n; i++ {
 			comma := ","
@@ -411,9 +457,9 @@ func GenRuleSoup(t *rapid.T) string {
 	case 0:
 		sb.WriteString("TYPE @a\n" + body("", keys))
 	case 1:
-		sb.WriteString("GET /x/{id}\n  Path\n" + body("  ", keys) + "  200 any\n")
+		sb.WriteString("GET /x/{id}\n  Path\n" + body("  ", keys[:1]) + "  200 any\n")
 	case 2:
-		sb.WriteString("URL /x/{id}/{a}\n  Path\n" + body("  ", keys) + "  GET\n    200 any\n")
+		sb.WriteString("URL /x/{id}/{a}\n  Path\n" + body("  ", keys[:2]) + "  GET\n    200 any\n")
 	case 3:
 		sb.WriteString("GET /x\n  Query\n" + body("  ", keys) + "  200 any\n")
 	case 4:
@@ -423,9 +469,9 @@ func GenRuleSoup(t *rapid.T) string {
 	case 6:
 		sb.WriteString("URL /r\n  Protocol json-rpc-2.0\n  Method m\n    Params\n" + body("    ", keys) + "    Result\n" + body("    ", keys))
 	case 7:
-		sb.WriteString("MACRO @m\n(\n  Path\n" + body("  ", keys) + ")\nGET /x/{id}\n  PASTE @m\n  200 any\n")
+		sb.WriteString("MACRO @m\n(\n  Path\n" + body("  ", keys[:1]) + ")\nGET /x/{id}\n  PASTE @m\n  200 any\n")
 	default:
-		sb.WriteString("POST /x/{id}\n  Request\n" + body("  ", keys) + "  Path\n" + body("  ", keys))
+		sb.WriteString("POST /x/{id}\n  Request\n" + body("  ", keys) + "  Path\n" + body("  ", keys[:1]))
 	}
 	return sb.String()
 }
